@@ -109,8 +109,8 @@ def run(ck):
     n_exact = n_cases = 0
     nontrivial = 0
     for mode, stride, allc, withbase in (
-        ("exact", ck.q(7, 1), False, True),
-        ("table", ck.q(23, 1), False, True),
+        ("exact", ck.q(8, 1), False, True),
+        ("table", ck.q(31, 1), False, True),
     ):
         phase = seed % stride
         data, info, datapath, cases = _instance(ck, mode, stride, phase, allc, withbase)
